@@ -380,25 +380,25 @@ def r13_4(chk: Check) -> None:
 
 
 def rules(chk: Check) -> None:
-    r13_1(chk)
-    cardinal_before_weights(chk, "R13.1")
-    r13_2(chk)
-    r13_4(chk)
+    chk.stage(r13_1, chk)
+    chk.stage(cardinal_before_weights, chk, "R13.1")
+    chk.stage(r13_2, chk)
+    chk.stage(r13_4, chk)
     # the momenta and Jacobians read by getDeltas are cached grid state: they must be mutually consistent
     # for every history of rescaling calls (shared typestate rule of C17)
     from .c17 import cache_coherence, jacobian_identity
-    cache_coherence(chk, "R13.5")
+    chk.stage(cache_coherence, chk, "R13.5")
     chk.floor("R13.5", 8)
     # the momentum Jacobians in the measure are the derivatives of the momentum maps (both grid classes share them)
-    jacobian_identity(chk, "R13.6", "grid:Grid", (1, 2))
-    jacobian_identity(chk, "R13.6", "grid3Scales:Grid3Scales", (1, 2))
+    chk.stage(jacobian_identity, chk, "R13.6", "grid:Grid", (1, 2))
+    chk.stage(jacobian_identity, chk, "R13.6", "grid3Scales:Grid3Scales", (1, 2))
     chk.floor("R13.6", 4)
     # getDeltas integrates the same Polynomial four times: each integral must see the same deltaF (R13.7: integrate / evaluate leave the stored
     # coefficients untouched, shared with C16 R16.5), through the same quadrature (R13.8, shared with C09 R09.4)
     from ..core import Remap
     from .c16 import coefficients_not_modified
     from . import c09
-    coefficients_not_modified(chk, "R13.7")
+    chk.stage(coefficients_not_modified, chk, "R13.7")
     chk.floor("R13.7", 6)
-    c09.r09_4(Remap(chk, {"R09.4": "R13.8"}))
+    chk.stage(c09.r09_4, Remap(chk, {"R09.4": "R13.8"}))
     chk.floor("R13.8", 2)
